@@ -43,6 +43,14 @@ def ops17 (op : String) (a : List String) : Option String :=
       let (set', s) := updateSet z acc.1 m
       (set', acc.2 ++ [showSet set' ++ "=>" ++ (match s with | some s => showSched s | none => "-")])) ([none], [])
     some ("ok\t" ++ "|".intercalate r.2)
+  | "sched.feed", [tbl, evs] =>
+    -- one Schedule object, the passive path: the set and the schedule held after every packet of the history
+    let z := tableZlib (parseTable tbl)
+    let msgs := (if evs = "" then [] else evs.splitOn ";").filterMap parseFrag
+    let r := msgs.foldl (fun (acc : (PayloadSet × Option Sched) × List String) m =>
+      let st := feedMsg z acc.1 m
+      (st, acc.2 ++ [showSet st.1 ++ "=>" ++ (match st.2 with | some s => showSched s | none => "-")])) (([none], none), [])
+    some ("ok\t" ++ "|".intercalate r.2)
   | _, _ => none
 
 end Driver
